@@ -1,5 +1,6 @@
 import DaeVerif.C11.DomainProofs
 import DaeVerif.C11.LoudsProofs
+import DaeVerif.C11.AcProofs
 /-! C11 — helper lemmas are split over `DomainProofs` (pattern normalisation, replay, build),
 `BitListProofs` (packed units), `RankSelectProofs` (popcount rank / select caches),
 `TreeProofs` (sorted keys → tree of nodes), `FlatProofs` (BFS numbering) and `LoudsProofs`
@@ -101,7 +102,7 @@ theorem option_mapM_of_forall {α β : Type} (f : α → Option β) (g : α → 
 theorem builtOf_matches (log : List AddCall) (i : Nat) (dom : Str) (rxHits : List Nat) :
     (builtOf (setOf log i)).matches dom rxHits = some ((builtOf (setOf log i)).matchesSpec dom rxHits) := by
   unfold BuiltSet.matches BuiltSet.matchesSpec builtOf
-  simp only
+  simp only [acAuto_eq_acContains]
   by_cases he : ((setOf log i).trie.map toSuffixTrieString).isEmpty = true
   · have : (setOf log i).trie.map toSuffixTrieString = [] := by simpa using he
     simp [he, this, hasPrefixSpec]
